@@ -237,6 +237,8 @@ type Fixture struct {
 	Owners  []fakecluster.SlotOwner
 	nonce   int
 	lastUse int64
+
+	smallRecv bool // the fake nodes accept connections with a small receive buffer
 }
 
 var useClock int64
